@@ -119,20 +119,17 @@ impl<I: ObjectWrite> Stream<I> {
             Primitive::Null => Dictionary::new(),
             p => bail!("stream info has to be a dictionary (found {:?})", p)
         };
-        let mut params = None;
+        let mut params: Vec<Primitive> = Vec::new();
         if self.info.filters.len() > 0 {
             for f in self.info.filters.iter() {
-                if let Some(para) = match f {
-                    StreamFilter::LZWDecode(ref p) => Some(p.to_primitive(update)?),
-                    StreamFilter::FlateDecode(ref p) => Some(p.to_primitive(update)?),
-                    StreamFilter::DCTDecode(ref p) => Some(p.to_primitive(update)?),
-                    StreamFilter::CCITTFaxDecode(ref p) => Some(p.to_primitive(update)?),
-                    StreamFilter::JBIG2Decode(ref p) => Some(p.to_primitive(update)?),
-                    _ => None
-                } {
-                    assert!(params.is_none());
-                    params = Some(para);
-                }
+                params.push(match f {
+                    StreamFilter::LZWDecode(ref p) => p.to_primitive(update)?,
+                    StreamFilter::FlateDecode(ref p) => p.to_primitive(update)?,
+                    StreamFilter::DCTDecode(ref p) => p.to_primitive(update)?,
+                    StreamFilter::CCITTFaxDecode(ref p) => p.to_primitive(update)?,
+                    StreamFilter::JBIG2Decode(ref p) => p.to_primitive(update)?,
+                    _ => Primitive::Null
+                });
             }
             let mut filters = self.info.filters.iter().map(|filter| match filter {
                 StreamFilter::ASCIIHexDecode => "ASCIIHexDecode",
@@ -157,8 +154,12 @@ impl<I: ObjectWrite> Stream<I> {
                 }
             }
         }
-        if let Some(para) = params {
-            info.insert("DecodeParms", para);
+        if params.iter().any(|p| !matches!(p, Primitive::Null)) {
+            if params.len() == 1 {
+                info.insert("DecodeParms", params.pop().unwrap());
+            } else {
+                info.insert("DecodeParms", Primitive::Array(params));
+            }
         }
 
         let inner = match self.inner_data {
